@@ -46,8 +46,16 @@ def check_adm(e, node, fails, where):
                     fails.append((f"adm-text:{e.get('kind')}", f"{where}: warning text of {c2} on a {cls}"))
 
 
+def generated_fields(e):
+    """(name, value) pairs the entry kind emits itself, as they appear in the raw line view."""
+    out = []
+    for n, v in e.get("fields") or []:
+        out.append((n, "None" if v is None else v))
+    return out
+
+
 def check_doc(e, node, fails, where, text=None):
-    act = nb(node.text if text is None else text)
+    act = nb(node.doc_lines(generated_fields(e)) if text is None else text)
     exp = nb(e.get("doc") or [])
     if act != exp:
         fails.append((f"doc:{e.get('kind') or e['dir']}", f"{where}: doc lines expected {exp!r} got {act!r}"))
@@ -92,7 +100,7 @@ def check_fields(e, node, fails, where):
         exp = exp[1:]
         act = [f for f in act if f[0] != "Default value"]
     expd = dict(exp)
-    actd = dict(act)
+    actd = dict(act)        # a later field wins: generated fields follow the doc text
     for n, v in exp:
         if n not in actd:
             fails.append((f"field-missing:{e.get('kind')}:{n}", f"{where}: field {n!r} missing, got {act!r}"))
@@ -101,8 +109,6 @@ def check_fields(e, node, fails, where):
                 fails.append((f"field-value:{e.get('kind')}:{n}", f"{where}: {n}: expected to contain {v!r} got {actd[n]!r}"))
         elif actd[n] != v:
             fails.append((f"field-value:{e.get('kind')}:{n}", f"{where}: {n}: expected {v!r} got {actd[n]!r}"))
-    if len(act) != len(set(n for n, _ in act)):
-        fails.append((f"field-dup:{e.get('kind')}", f"{where}: duplicated fields {act!r}"))
 
 
 def method_sig(m):
@@ -130,11 +136,14 @@ def check_method(m, node, fails, where):
         actd.setdefault(n, []).append(v)
     for n, v in m["fields"]:
         if n.startswith("type "):
-            if actd.get(n) != [v]:
+            if [x for x in actd.get(n, []) if f":{n}: {x}" not in set(m.get("doc") or [])] != [v]:
                 fails.append(("method-type-pair", f"{where}: expected :{n}: {v!r}, got {actd.get(n)!r}"))
     exp_type_names = {n for n, _ in m["fields"] if n.startswith("type ")}
+    doc_set = set(m.get("doc") or [])
     for n in actd:
         if n.startswith("type ") and n not in exp_type_names:
+            if all(f":{n}: {v}" in doc_set for v in actd[n]):
+                continue        # written by the user in the doccomment
             fails.append(("method-type-extra", f"{where}: unexpected field :{n}: {actd[n]!r}"))
 
 
@@ -178,7 +187,7 @@ def check_class(e, node, fails, where):
         for a, k in zip(e["attrs"], act_attrs):
             check_attr(a, k, fails, f"{where}/{a['name']}")
     # text: bases line, doc, group labels, inner-class list
-    text = nb(node.text)
+    text = nb(node.doc_lines())
     rest = list(text)
     if e["bases"]:
         if not rest or not rest[0].startswith("Bases:"):
